@@ -1019,6 +1019,30 @@ def _interp_methods(cls):
                 return False
         if r.get("k") == "mcall" and r.get("method") == "position":
             return 0
+        # `self.field.unwrap_or_default()` / `x.field...`: the declared type of the struct field
+        base = r
+        while base.get("k") == "mcall" and base.get("method") in ("clone", "as_ref", "as_deref", "borrow", "cloned", "copied"):
+            base = base.get("recv", {})
+        if base.get("k") == "field":
+            fname = base.get("member")
+            for items in self.dump.items.values():
+                for it in items:
+                    if "struct" in it:
+                        for f in it["fields"]:
+                            if f.get("name") == fname:
+                                ty = (f.get("ty") or "").replace(" ", "")
+                                if ty.startswith("Option<"):
+                                    inner = ty[len("Option<"):-1]
+                                    if inner == "bool":
+                                        return False
+                                    if inner in ("usize", "u8", "u16", "u32", "u64", "i32", "i64", "isize"):
+                                        return 0
+                                    if inner == "f64":
+                                        return 0.0
+                                    if inner.startswith("Vec<"):
+                                        return SVec()
+                                    if inner in ("String", "&str") or inner.startswith("&'"):
+                                        return SStr()
         return SStr()
 
     def type_hint(self, e, env):
